@@ -68,4 +68,68 @@ def sortedRoots (gw : List Char → Option (List Char)) (fields : List (List Cha
     (order : List (List Char)) : List (List Char) :=
   hintRoots gw fields ++ order
 
+/-! ### keep-balance: many blocks balanced at the same time (balance.go ComputeChangeSets)
+
+`ComputeChangeSets` hands the blocks to GOMAXPROCS worker goroutines which all call `balanceBlock`
+on the same `Balancer` and the same `*KeepService` objects. `balanceBlock` computes the block's
+ranking into `srvRendezvous`, a map allocated by that call, and later sorts the slots by it. The
+model splits a call into these two steps and lets any schedule interleave the steps of different
+blocks; the ranking is a field of the task (local to the call), not of the shared state. -/
+
+/-- keep-balance wants the replicas of a block on the first `d` servers of its ranking (one slot
+per server, equal storage class, no read-only mounts: the regime the driver observes). -/
+def wantedServers (d : Nat) (ranking : List α) : List α := ranking.take d
+
+/-- One `balanceBlock` call in flight. -/
+structure Task (β α : Type) where
+  blk : β
+  rank : Option (List α) := none      -- srvRendezvous, once computed
+  wanted : Option (List α) := none    -- where the call decided to keep/pull replicas
+
+inductive SweepStep where
+  | rank (i : Nat)    -- the worker holding task i computes its ranking (balance.go:618-623)
+  | place (i : Nat)   -- the worker holding task i sorts the slots by its ranking and places
+deriving Repr, DecidableEq
+
+def updAt {γ : Type} (f : γ → γ) : Nat → List γ → List γ
+  | _, [] => []
+  | 0, t :: ts => f t :: ts
+  | i + 1, t :: ts => t :: updAt f i ts
+
+variable {β : Type}
+
+def rankTask (w : β → α → Nat) (svcs : List α) (t : Task β α) : Task β α :=
+  { t with rank := some (probeOrder (w t.blk) svcs) }
+
+def placeTask (d : Nat) (t : Task β α) : Task β α :=
+  match t.rank with
+  | some r => { t with wanted := some (wantedServers d r) }
+  | none => t
+
+def sweepStep (w : β → α → Nat) (svcs : List α) (d : Nat) (ts : List (Task β α)) :
+    SweepStep → List (Task β α)
+  | .rank i => updAt (rankTask w svcs) i ts
+  | .place i => updAt (placeTask d) i ts
+
+/-- Any interleaving of the workers' steps. -/
+def sweepRun (w : β → α → Nat) (svcs : List α) (d : Nat) (blks : List β) (sched : List SweepStep) :
+    List (Task β α) :=
+  sched.foldl (sweepStep w svcs d) (blks.map (fun b => { blk := b }))
+
+/-- The variant in which the ranking lives in state shared by all calls (e.g. a field of the
+long-lived `KeepService` objects): `rank` overwrites it, `place` reads whatever is there. Used only
+to show that the locality of the ranking is what `C12_sweep_any_schedule` rests on. -/
+def sharedStep (w : β → α → Nat) (svcs : List α) (d : Nat) (st : Option (List α) × List (Task β α)) :
+    SweepStep → Option (List α) × List (Task β α)
+  | .rank i => (match st.2[i]? with
+                | some t => some (probeOrder (w t.blk) svcs)
+                | none => st.1, st.2)
+  | .place i => (st.1, updAt (fun t => match st.1 with
+                                        | some r => { t with wanted := some (wantedServers d r) }
+                                        | none => t) i st.2)
+
+def sharedRun (w : β → α → Nat) (svcs : List α) (d : Nat) (blks : List β) (sched : List SweepStep) :
+    List (Task β α) :=
+  (sched.foldl (sharedStep w svcs d) (none, blks.map (fun b => { blk := b }))).2
+
 end ArvVerif.C12
